@@ -52,6 +52,7 @@ type c09Scenario struct {
 	RetryDur          time.Duration
 	PreAlloc          int
 	NilHandler        bool   `json:"nil_panic_handler,omitempty"`
+	ReHandler         int    `json:"panic_handler_replaced,omitempty"` // 1: after the first workers exist, before any submission; 2: by a thread while the pool works
 	Retune            []int  `json:"batch_size_set_at_run_time,omitempty"`
 	Ctor              string `json:"pool_construction"` // setters | settings-struct | set-settings-struct | set-job-queue
 	InvSetters        bool   `json:"invokable_built_with_setters,omitempty"`
@@ -67,6 +68,7 @@ type c09Scenario struct {
 	strandedInfo string
 	settleAt     uint64
 	closeAt      uint64
+	rehandledAt  uint64 // stamp at which SetPanicHandler(second handler) returned
 }
 
 type c09JobRec struct {
@@ -81,6 +83,7 @@ type c09JobRec struct {
 type c09Handled struct {
 	at  uint64
 	val string
+	gen int // which installed handler received it (1: the one installed at construction, 2: its replacement)
 }
 
 // All durations of a run are small multiples of one per-run time unit, so that the periodic
@@ -119,6 +122,10 @@ func genC09(t *simrt.Tape, tier string) Scenario {
 	sc.Sibling = t.Bool(1, 4)
 	// SetPanicHandler(nil): panics are swallowed silently, everything else must stay the same
 	sc.NilHandler = t.Bool(1, 5)
+	if !sc.NilHandler && t.Bool(1, 4) {
+		// the handler is replaced through SetPanicHandler after workers have been created
+		sc.ReHandler = 1 + t.Choose(2)
+	}
 	// how the pool gets its configuration: setters after NewDefaultWorkerPool(q, nil); a settings struct
 	// (copied from a configured template pool) passed to the constructor or to SetDefaultWorkerPoolSettings;
 	// or a pool created on a placeholder queue that gets its real queue through SetJobQueue
@@ -189,7 +196,7 @@ func (sc *c09Scenario) Run(s *simrt.Sim) {
 	// outside the configuration this run is about.
 	configure := func(p *worker.DefaultWorkerPool) {
 		p.SetPanicHandler(func(v interface{}) {
-			sc.handler = append(sc.handler, c09Handled{at: s.Stamp(), val: fmt.Sprint(v)})
+			sc.handler = append(sc.handler, c09Handled{at: s.Stamp(), val: fmt.Sprint(v), gen: 1})
 		})
 		if sc.NilHandler {
 			p.SetPanicHandler(nil)
@@ -243,6 +250,20 @@ func (sc *c09Scenario) Run(s *simrt.Sim) {
 	}
 	if sc.PreAlloc > 0 {
 		pool.PreAllocWorkerSize(sc.PreAlloc)
+	}
+	rehandle := func(who string) {
+		h.Do(who, "SetPanicHandler", 2, func() (interface{}, error) {
+			pool.SetPanicHandler(func(v interface{}) {
+				sc.handler = append(sc.handler, c09Handled{at: s.Stamp(), val: fmt.Sprint(v), gen: 2})
+			})
+			return nil, nil
+		})
+		sc.rehandledAt = s.Stamp()
+	}
+	if sc.ReHandler == 1 {
+		// let the spawn loop create the stand-by workers under the first handler
+		s.Sleep(3*sc.SpawnDur + sc.Unit)
+		rehandle("main")
 	}
 	var mkJob func(spec c09Job) (*c09JobRec, func())
 	mkJob = func(spec c09Job) (*c09JobRec, func()) {
@@ -308,6 +329,12 @@ func (sc *c09Scenario) Run(s *simrt.Sim) {
 				s.Sleep(sc.Unit / 4)
 			}
 			h.Do("retuner", "SetWorkerBatchSize", sc.Batch, func() (interface{}, error) { pool.SetWorkerBatchSize(sc.Batch); return nil, nil })
+		}))
+	}
+	if sc.ReHandler == 2 {
+		ths = append(ths, s.Go("rehandler", func() {
+			s.Sleep(sc.Unit)
+			rehandle("rehandler")
 		}))
 	}
 	s.WaitUntilTimeout(allDone(ths), 10*time.Minute)
@@ -487,11 +514,24 @@ func (sc *c09Scenario) Check(res *simrt.Result) []Violation {
 		}
 	}
 	got := map[string]int{}
+	startOf := map[string]uint64{}
+	for _, j := range sc.jobs {
+		if j.panicVal != "" && len(j.starts) > 0 {
+			startOf[j.panicVal] = j.starts[0]
+		}
+	}
 	for _, hd := range sc.handler {
 		if sc.closeAt != 0 && hd.at > sc.closeAt {
 			continue
 		}
 		got[hd.val]++
+		// a job that started after SetPanicHandler(h2) had returned panics later still: h2 is "the panic handler"
+		if st, ok := startOf[hd.val]; ok && sc.rehandledAt != 0 && st > sc.rehandledAt {
+			sc.probes["panic-after-handler-replacement"]++
+			if hd.gen == 1 {
+				add("panic-handler", "reported-to-the-replaced-handler", fmt.Sprintf("job panic %q (job started at %d) was reported to the handler that SetPanicHandler had replaced before (returned at %d)", hd.val, st, sc.rehandledAt))
+			}
+		}
 	}
 	for v, n := range got {
 		if want[v] == 0 {
